@@ -142,7 +142,7 @@ theorem body_advance (fuel : Nat) {P : Params} (ha : P.a.WF) {st : Scan} {e : En
     where_row_ge_zero ha hi.v0 hi.v1, bnd_ok, pyIndex_str_getD hlt,
     pyMap_nucs (fun j hj => live_lt_four P.a st.v hj), pyIn_live, hlp, if_true,
     pyIndex_list_append_singleton_neg_one, npAdd_str, pySetItem_list_append_singleton_neg_one,
-    acc_index_nuc ha hi.v0 hi.v1 hj, pySetItem_arr_nat hql, npAdd_nat_one]
+    acc_index_nuc ha hi.v0 hi.v1 hj, pySetItem_ints_nat hql, npAdd_nat_one]
   refine ⟨_, rfl, by const_rel, ?_⟩
   refine ⟨rfl, rfl, ?_, ?_, hchunks, hmarkers, hdet, hflag, rfl⟩
   · simp only [Scan.advance, List.map_set]
